@@ -448,6 +448,8 @@ type c17cfg struct {
 	dup       int // goroutines racing to Do the same request (1 = no duplicates)
 	maxBatch  int // requests answered at once
 	unrelated int // deliveries of an event nobody waits for, per burst
+	ctl       *sched.Controller
+	together  bool // ebg: the competing flows are held at the entry of the determination and released together
 }
 
 type c17counters struct {
@@ -471,6 +473,8 @@ func c17runCase(out *rec.Out, idx int, rng *rec.Rng, tier string, stats map[stri
 
 	ctl := sched.Install()
 	defer ctl.Remove()
+	cfg.ctl = ctl
+	cfg.together = kind == "ebg" && rng.Intn(2) == 0
 	if cfg.perturb > 0 {
 		ctl.Perturb(rng.U64(), cfg.perturb)
 	}
@@ -1018,7 +1022,20 @@ func c17events(out *rec.Out, rng *rec.Rng, stats map[string]int, cfg c17cfg) {
 			s.cnt.answers.Add(1)
 			s.cnt.concAnswers.Add(1)
 		}
+		held := cfg.together && round == 0
+		if held {
+			// the determination itself is raced: every competing flow parks at the entry of the transformer, then all
+			// are released at once (on a tree where the winner is decided by one atomic step exactly one of them wins)
+			cfg.ctl.Hold("ebg.transformer.enter")
+		}
 		close(start)
+		if held {
+			for i := 0; i < 300 && cfg.ctl.Hits("ebg.transformer.enter") < k; i++ {
+				time.Sleep(5 * time.Millisecond)
+			}
+			in.Note("c17 note together held=%d", cfg.ctl.Hits("ebg.transformer.enter"))
+			cfg.ctl.Release("ebg.transformer.enter")
+		}
 		s.cnt.batches++
 		c17waitWG(&wg, 6*time.Second)
 		c17waitWG(bg, 5*time.Second)
